@@ -67,6 +67,13 @@ def _base_axes(spec):
 
 
 def _make(spec):
+    if spec.get("via_location_change") and spec["cls"] != "esri":
+        # built with the other data location, shape/size read, then switched: must behave like a fresh grid
+        other = "POINTS" if spec["location"] == "CELLS" else "CELLS"
+        g = _make(dict(spec, location=other, via_location_change=False))
+        _ = (g.data_shape, g.data_size)
+        g.data_location = spec["location"]
+        return g
     if spec.get("uniform_axes"):
         axes = [ax if inc else ax[::-1] for ax, inc in zip(_base_axes(spec), spec["increase"])]
         return fm.RectilinearGrid([np.array(a, dtype=float) for a in axes], order=spec["order"], axes_reversed=spec["reversed"], data_location=spec["location"])
@@ -144,6 +151,10 @@ class C15(Property):
             # thorough: every ordered pair twice, once with a plain and once with a masked payload
             a, b = PAIRS[i // 2] if tier == "thorough" else rnd.choice(PAIRS)
             masked = bool(i % 2) if tier == "thorough" else rnd.random() < 0.5
+            if rnd.random() < 0.15:
+                a = dict(a, via_location_change=True)
+            if rnd.random() < 0.15:
+                b = dict(b, via_location_change=True)
             return dict(kind="same", a=a, b=b, masked=masked, mseed=rnd.randrange(1 << 30))
         a, _ = rnd.choice(PAIRS)
         b, how = _perturb(rnd, a)
@@ -184,6 +195,8 @@ class C15(Property):
         )
         la, lb = _located(a), _located(b)
         out.count("compatible_pairs")
+        if a.get("via_location_change") or b.get("via_location_change"):
+            out.count("grids_with_changed_data_location")
         # compatible_with / equality
         if not ga.compatible_with(gb) or not gb.compatible_with(ga):
             out.viol("compatible_false_negative", "grids with identical data locations reported incompatible", a=a, b=b)
@@ -262,7 +275,7 @@ class C15(Property):
 
     def coverage_gaps(self, counters, tier):
         need = ["compatible_pairs", "incompatible_pairs", "canonical_roundtrips", "transforms_no_time", "transform_none_equal_layout",
-                "link_pulls", "masked_link_pulls", "relayout_links", "equal_layout_links", "incompatible_links_refused"]
+                "link_pulls", "masked_link_pulls", "relayout_links", "equal_layout_links", "incompatible_links_refused", "grids_with_changed_data_location"]
         return [f"{k} never observed" for k in need if not counters.get(k)]
 
 
